@@ -119,6 +119,8 @@ def first_diff(a, b):
 
 
 REV = {"L": "G", "G": "L", "E": "E", "P": "P"}
+LK_ENTRIES = ["get_item", "subscript", "in", "iter-keys", "items", "dictsort", "get_attr", "dot", "get_path", "map-attr",
+              "selectattr", "rejectattr", "groupby", "sort-attr", "unique-attr", "get_item_by_index", "context-var"]
 TPL_NAMES = ["lt", "eq", "in-list", "in-map", "lookup", "le", "gt", "in-map2", "lookup2"]
 
 
@@ -129,7 +131,7 @@ def check_mode(r, mode, exe):
         r.broken.append(f"harness c07 [{feats}] exited {rc}: {err[-300:]}")
         return
     lines = out.splitlines()
-    drv_lines = [l for l in lines if l.split(" ", 1)[0] in ("val", "pair", "batch", "slicef")]
+    drv_lines = [l for l in lines if l.split(" ", 1)[0] in ("val", "pair", "batch", "slicef") or l.startswith("lk vm ")]
     model = r.driver("drive_c07", "\n".join(drv_lines) + "\n", args=[mode])
     if model is None or len(model) != len(drv_lines):
         r.broken.append(f"[{feats}] model driver output does not line up with the harness cases")
@@ -201,6 +203,37 @@ def check_mode(r, mode, exe):
                 for item in rf[2].split(" || "):
                     head = item.split(" ", 1)[0]           # filter:law
                     r.oracle_failure(case, f"[{feats}] {item[:300]}", "filter:" + head)
+        elif st == "lk":
+            backing, nent, kenc, penc = f[1], f[2], f[3], f[4]
+            exp, flags = res.split()
+            kt, pt = parse(kenc), parse(penc)
+            kinds = "~".join(sorted([top_kind(kt), top_kind(pt)]))
+            r.count((st, mode, case), kenc != penc, n=sum(1 for c in flags if c != "-"))
+            r.hist["lk-backing" + sfx][backing] += 1
+            r.hist["lk-size"][nent] += 1
+            nanp = has_nan(kt) or has_nan(pt)
+            for name, c in zip(LK_ENTRIES, flags):
+                if c == "-":
+                    continue
+                r.hist["lk-entry"][name] += 1
+                if c == "P":
+                    r.oracle_failure(case, f"[{feats}] lookup entry point `{name}` panics", f"panic:lookup:{name}")
+                elif c != exp and not nanp:
+                    # bool-vs-number keys: the recorded root cause (== says equal, Ord / Hash do not)
+                    site = "lookup-vs-eq:Bool~Number" if kinds == "Bool~Number" else f"lookup-entry:{name}:{kinds}"
+                    r.oracle_failure(case, f"[{feats}] {backing} map of {nent} entries with key {kenc}: `{name}` with probe {penc} "
+                                     f"answers {c} but (key == probe) is {exp}; all entry points: {dict(zip(LK_ENTRIES, flags))}", site)
+            m = model_of.get(case) if backing == "vm" else None
+            if m is not None:
+                mf = m.split()
+                if len(mf) == 3 and mf[2] == "h":
+                    r.hist["correspondence" + sfx]["hash-layout-dependent (skipped)"] += 1
+                else:
+                    md = dict(x.split("=") for x in mf[:2]) if len(mf) >= 2 and "=" in mf[0] else {}
+                    gi = flags[LK_ENTRIES.index("get_item")]
+                    ga = flags[LK_ENTRIES.index("get_attr")]
+                    if md.get("get") != gi or md.get("attr") != ga:
+                        r.model_disagreement(case, f"get_item={gi} get_attr={ga}", m)
         elif st in ("batch", "slicef"):
             r.count((st, mode, case), int(f[1]) > 0 and f[2] != "0")
             r.hist[st + "-result"][res.split(":")[0]] += 1
@@ -317,7 +350,11 @@ def run(r):
               "template operators < <= > == in and dict lookup; every list of length <=5 over a 7-value alphabet (plain items, items wrapped in "
               "maps for attribute=, as list/tuple/sized+unsized iterable/VecDeque/dict) through sort/dictsort/unique/groupby/batch/slice/reverse/"
               "first/last/min/max with all keyword options, plus long random lists; batch/slice run lengths for len<=14, count<=16 and huge counts "
-              "against the Lean model; run under BTreeMap and IndexMap.  A pair is non-trivial when i != j, a list when it has >=2 items.")
+              "against the Lean model; every lookup entry point (get_item, m[p], in, key iteration, items, dictsort, get_attr, m.name, context "
+              "variable, get_path, map/selectattr/rejectattr/groupby/sort/unique with attribute=, get_item_by_index) on maps of 1, 2, 12, 13, 20 "
+              "entries (both sides of the small-map fast path) holding one of 20 keys and probed with each of the 20, for ValueMap, HashMap<Value,_>, "
+              "BTreeMap/HashMap<String,_>, BTreeMap<Arc<str>,_>, a user Object and a serde-serialized map; run under BTreeMap and IndexMap.  "
+              "A pair is non-trivial when i != j, a list when it has >=2 items, a lookup case when key and probe differ.")
     r.assumptions = ["Rust's slice::sort_by is the unique stable sort for a total preorder (List.mergeSort)",
                      "BTreeMap/BTreeSet find an entry iff its key compares Equal (true when Ord is a total order on the keys present)",
                      "f64 primitives (==, <, trunc, as-casts) follow IEEE-754 / the Rust reference (saturating float->int, round-to-nearest-even int->float)",
@@ -354,7 +391,7 @@ def replay(r, path):
                 inp = f"val 0 {f[1]}\nval 1 {f[2]}\npair 0 1\n"
                 m = r.driver("drive_c07", inp, args=[mode])
                 print(f"[{mode}] model (cmp eq samehash):", m[-1] if m else None)
-            elif f[0] in ("batch", "slicef"):
+            elif f[0] in ("batch", "slicef") or (f[0] == "lk" and f[1] == "vm"):
                 m = r.driver("drive_c07", case + "\n", args=[mode])
                 print(f"[{mode}] model:", m[-1] if m else None)
     return 0
